@@ -188,6 +188,10 @@ func TestWorker(t *testing.T) {
 	for i := lo; i < hi; i++ {
 		c := Case{Prop: *fProp, Tier: *fTier, Seed: simrt.Mix(*fBase, uint64(i)), Params: parseParams(*fSub)}
 		o := RunCase(t, c, *fTrace)
+		if strings.Contains(o.Infra, "real-time budget") {
+			// the machine was busy: the same case once more (it is the same execution) before it counts as trouble
+			o = RunCase(t, c, *fTrace)
+		}
 		sub := o.SubList
 		emit(o)
 		for _, b := range sub {
